@@ -13,6 +13,8 @@
    stay as they are at that instant).  c = 0: no crash.
 
    Oracles carried by ops: dn = the (session, status-type) pairs the server drops during the op;
+   cin/cout (Stop) and cs (InterimTick, GracefulStop: per session) = what the counter callback returns,
+   fe = the sessions for which the callback fails during the op;
    order lists = Go map iteration order / goroutine scheduling, as observed.
    Ghost markers (08NN) label the steps at which a known defect acts; they do not influence
    behaviour. *)
@@ -153,6 +155,10 @@ Definition fetch_ctr (fe : list N) (s cin cout : N) (l : list sess) : N * N :=
     match find_sess s l with Some se => (s_lin se, s_lout se) | None => (0, 0) end
   else (cin, cout).
 
+(* the counter source during an op: what the callback returns for each session (absent: zeros) *)
+Definition src (cs : list (N * (N * N))) (s : N) : N * N :=
+  match find (fun p => fst p =? s) cs with Some p => snd p | None => (0, 0) end.
+
 (* ---- StopSession ---- *)
 Definition do_stop (s cause cin cout : N) (fe : list N) (dn : list (N * N)) (x : ms) : ms + ms :=
   match find_sess s (x_sess x) with
@@ -175,8 +181,8 @@ Definition do_stop (s cause cin cout : N) (fe : list N) (dn : list (N * N)) (x :
   end.
 
 (* ---- sendInterimUpdates (one ticker iteration; every session is due) ---- *)
-Definition interim_one (cin cout : N) (fe : list N) (dn : list (N * N)) (se : sess) (x : ms) : ms + ms :=
-  let fc := fetch_ctr fe (s_id se) cin cout (x_sess x) in
+Definition interim_one (cs : list (N * (N * N))) (fe : list N) (dn : list (N * N)) (se : sess) (x : ms) : ms + ms :=
+  let fc := fetch_ctr fe (s_id se) (fst (src cs (s_id se))) (snd (src cs (s_id se))) (x_sess x) in
   let q := mkQ ST_INTERIM (s_id se) (s_ident se) (fst fc) (snd fc) 0 in
   let a := acked dn q in
   let x1 := send q a x in
@@ -185,8 +191,8 @@ Definition interim_one (cin cout : N) (fe : list N) (dn : list (N * N)) (se : se
             else x1 in
   ctick x2.                                                        (* interim_sent *)
 
-Definition do_interim (cin cout : N) (fe : list N) (dn : list (N * N)) (order : list N) (x : ms) : ms + ms :=
-  fold_m (interim_one cin cout fe dn) (pick s_id order (filter (fun h => negb (s_pend h)) (x_sess x))) x.
+Definition do_interim (cs : list (N * (N * N))) (fe : list N) (dn : list (N * N)) (order : list N) (x : ms) : ms + ms :=
+  fold_m (interim_one cs fe dn) (pick s_id order (filter (fun h => negb (s_pend h)) (x_sess x))) x.
 
 (* ---- processPendingRecord ---- *)
 Definition process_rec (maxr st : N) (q : req) (dn : list (N * N)) (x : ms) : ms + ms :=
@@ -216,12 +222,12 @@ Definition do_retry (maxr : N) (dn : list (N * N)) (order : list N) (x : ms) : m
   fold_m (retry_one maxr dn) (pick_pos order (x_pend x)) x.
 
 (* ---- Stop(): drain, persist pending ---- *)
-Definition drain_req (cin cout : N) (fe : list N) (l : list sess) (se : sess) : req :=
-  let fc := fetch_ctr fe (s_id se) cin cout l in
+Definition drain_req (cs : list (N * (N * N))) (fe : list N) (l : list sess) (se : sess) : req :=
+  let fc := fetch_ctr fe (s_id se) (fst (src cs (s_id se))) (snd (src cs (s_id se))) l in
   mkQ ST_STOP (s_id se) (s_ident se) (fst fc) (snd fc) CAUSE_NAS_REBOOT.
 
-Definition do_graceful (cin cout : N) (fe : list N) (dn : list (N * N)) (qorder : list N) (g : N) (x : ms) : ms + ms :=
-  let qs := map (drain_req cin cout fe (x_sess x)) (x_sess x) in
+Definition do_graceful (cs : list (N * (N * N))) (fe : list N) (dn : list (N * N)) (qorder : list N) (g : N) (x : ms) : ms + ms :=
+  let qs := map (drain_req cs fe (x_sess x)) (x_sess x) in
   if (g =? 1) && negb (match qs with [] => true | _ => false end) then
     (* crash inside the concurrent drain: every request is on the wire, the process dies at the
        first completed exchange (the first acknowledged one if there is any) *)
@@ -269,10 +275,10 @@ Definition do_restart (dn : list (N * N)) (qperm : list N) (x : ms) : ms + ms :=
 Inductive op :=
 | Start (s : N) (id : ident) (dn : list (N * N)) (c : N)
 | Stop (s cause cin cout : N) (fe : list N) (dn : list (N * N)) (c : N)
-| InterimTick (cin cout : N) (fe : list N) (dn : list (N * N)) (order : list N) (c : N)
+| InterimTick (cs : list (N * (N * N))) (fe : list N) (dn : list (N * N)) (order : list N) (c : N)
 | ProcessQueued (dn : list (N * N)) (c : N)
 | RetryTick (dn : list (N * N)) (order : list N) (c : N)
-| GracefulStop (cin cout : N) (fe : list N) (dn : list (N * N)) (qorder : list N) (g : N)
+| GracefulStop (cs : list (N * (N * N))) (fe : list N) (dn : list (N * N)) (qorder : list N) (g : N)
 | Crash
 | Restart (dn : list (N * N)) (qperm : list N) (c : N)
 | Final.
@@ -321,10 +327,10 @@ Definition step (s : state) (o : op) : state * out * list N :=
   match o with
   | Start id idn dn c => if st_alive s then leave s false (do_start id idn dn (enter s c)) else dead s
   | Stop id cause cin cout fe dn c => if st_alive s then leave s false (do_stop id cause cin cout fe dn (enter s c)) else dead s
-  | InterimTick cin cout fe dn order c => if st_alive s then leave s false (do_interim cin cout fe dn order (enter s c)) else dead s
+  | InterimTick cs fe dn order c => if st_alive s then leave s false (do_interim cs fe dn order (enter s c)) else dead s
   | ProcessQueued dn c => if st_alive s then leave s false (do_queue (st_maxr s) dn (enter s c)) else dead s
   | RetryTick dn order c => if st_alive s then leave s false (do_retry (st_maxr s) dn order (enter s c)) else dead s
-  | GracefulStop cin cout fe dn qorder g => if st_alive s then leave s true (do_graceful cin cout fe dn qorder g (enter s 0)) else dead s
+  | GracefulStop cs fe dn qorder g => if st_alive s then leave s true (do_graceful cs fe dn qorder g (enter s 0)) else dead s
   | Crash => if st_alive s then leave s false (inr (enter s 0)) else dead s
   | Restart dn qperm c =>
       if st_alive s then (s, view R_ERR [] s, [])
